@@ -214,7 +214,8 @@ def _history_root(start, prefix, depth, alphabet, sig, tmp):
     if lf and os.path.exists(lf):
         logging.shutdown()
         logsize = os.path.getsize(lf)
-    return {'fresh': int(fresh), 'lvl0': -1 if lvl0 is None else int(lvl0), 'recs': recs, 'tree': tree,
+    # the tree is carried as one JSON string so that the evidence file shows it abbreviated
+    return {'fresh': int(fresh), 'lvl0': -1 if lvl0 is None else int(lvl0), 'recs': recs, 'tree': json.dumps(tree),
             'stderr_logging_error': int('--- Logging error ---' in env['errout'].getvalue()),
             'logsize': logsize}
 
@@ -255,7 +256,8 @@ def leaves(out, prefix):
                 yield from walk(kids, toks + [tok], recs + [rec])
             else:
                 yield toks + [tok], recs + [rec]
-    if out['tree']:
-        yield from walk(out['tree'], list(prefix), list(out['recs']))
+    tree = json.loads(out['tree'])
+    if tree:
+        yield from walk(tree, list(prefix), list(out['recs']))
     else:
         yield list(prefix), list(out['recs'])
